@@ -70,6 +70,7 @@ fn look<F: std::io::Read + std::io::Seek>(cf: &mut cfb::CompoundFile<F>) -> Resu
 
 fn guarded<T>(f: impl FnOnce() -> Result<T, Res>) -> Result<T, Res> {
     clear_panic();
+    let _w = crate::driver::callwatch::enter();
     match catch_unwind(AssertUnwindSafe(f)) {
         Ok(r) => r,
         Err(_) => Err(Res::Panic(take_panic())),
